@@ -206,9 +206,10 @@ def check(ctx, case):
 				pyfails.append("caller's index array was modified")
 		case['_err'] = real.startswith('err')
 		lines = [f'c20.get {natlists(sigs)} {wire_index(case["idx"])} {real}']
-		if case['cont'] in PACKED and (real.startswith(('one:', 'many:')) or real in ('err:IndexError', 'err:TypeError', 'err:ValueError')):
-			# three-way: the dispatch generated from the current source, on the object as Python sees it
-			lines.append(f'pyg.getitem {natlists(sigs)} {dyn_index(idx)} {real}')
+		if real.startswith(('one:', 'many:')) or real in ('err:IndexError', 'err:TypeError', 'err:ValueError'):
+			# three-way: the dispatch generated from the current source (with the collection's own generated _getitem_* methods behind it),
+			# on the object as Python sees it
+			lines.append(f'pyg.getitem{"" if case["cont"] in PACKED else ".list"} {natlists(sigs)} {dyn_index(idx)} {real}')
 		return lines, pyfails
 	if kind == 'bigfile':
 		# a signature file with more than 2^20 values, read through ONE handle in a given order (ints, iteration, ==, slices, arrays):
